@@ -45,9 +45,14 @@ class Peer(object):
         if hello and cls == 2:
             lines = lines[:1] + (['PIPELINING'] if self.pipelining else []) + ['8BITMIME']
             nl = len(lines)
+        ntok = len(lines)
+        if not hello and self.rnd.random() < 0.2:
+            # a reply line without text ("250 CRLF", "250-CRLF"): legal, and the next line must not be taken for its text
+            lines[self.rnd.randrange(len(lines))] = ''
+            ntok -= 1
         wire = ''.join('%d%s%s\r\n' % (code, '-' if i < len(lines) - 1 else ' ', ln) for i, ln in enumerate(lines))
         self.out += wire.encode('ascii')
-        self.log.append({'t': 'peer_sent', 'code': code, 'nl': nl})
+        self.log.append({'t': 'peer_sent', 'code': code, 'nl': nl, 'ntok': ntok})
         return code
 
     def choose(self, unit):
